@@ -82,6 +82,37 @@ impl SE for Zs {
     const NAME: &'static str = "Zs(zero-sized)";
 }
 
+/// A one-byte element without drop glue whose serde encoding is NOT its memory byte (the variants are written
+/// as the numbers 10, 20, 30): an encoder that ships the raw bytes of the slots produces something else.
+#[derive(Clone, Copy, Debug, PartialEq)]
+#[repr(u8)]
+pub enum Tri {
+    A = 0,
+    B = 1,
+    C = 2,
+}
+impl Serialize for Tri {
+    fn serialize<S: serde::Serializer>(&self, s: S) -> Result<S::Ok, S::Error> {
+        s.serialize_u32(10 * (*self as u32 + 1))
+    }
+}
+impl<'de> Deserialize<'de> for Tri {
+    fn deserialize<D: serde::Deserializer<'de>>(d: D) -> Result<Self, D::Error> {
+        match u32::deserialize(d)? {
+            10 => Ok(Tri::A),
+            20 => Ok(Tri::B),
+            30 => Ok(Tri::C),
+            other => Err(serde::de::Error::custom(format!("{} is not an encoded Tri", other))),
+        }
+    }
+}
+impl SE for Tri {
+    fn mk(x: u32) -> Self {
+        [Tri::A, Tri::B, Tri::C][(x % 3) as usize]
+    }
+    const NAME: &'static str = "Tri(one-byte enum, encoded as 10/20/30)";
+}
+
 fn v(what: &str, msg: String) {
     let (_, _, op) = ledger::ctx();
     ledger::violation("C20", format!("{}@{}", what, op), msg);
